@@ -673,13 +673,12 @@ func runC15(t *testing.T, res *report.Result) {
 	shard, nshards := report.Shard()
 	deadline := report.Deadline()
 	double := res.Thorough()
-	done := 0
+	// work unit = one row of a base's pair matrix (member x against every member y, and x as the
+	// signed state of the signature cases); units are dealt round-robin to the shards
+	unit := 0
 	for bi, b := range bases {
-		if bi%nshards != shard {
-			continue
-		}
 		if deadlinePassed(deadline) {
-			res.Cap("deadline reached after %d of %d bases of this shard", done, (len(bases)-shard+nshards-1)/nshards)
+			res.Cap("deadline reached at base %d of %d", bi, len(bases))
 			break
 		}
 		single := catalogueFor(b, false)
@@ -687,14 +686,25 @@ func runC15(t *testing.T, res *report.Result) {
 		if double {
 			cat = catalogueFor(b, true)
 		}
-		res.Count("bases", 1)
-		res.Count("catalogue_members", int64(len(cat)))
-		for _, m := range cat {
-			if !m.okS {
-				res.Count("members_unencodable_as_State", 1)
+		if bi%nshards == shard { // per-base counters are reported by one shard only
+			res.Count("bases", 1)
+			res.Count("catalogue_members", int64(len(cat)))
+			for _, m := range cat {
+				if !m.okS {
+					res.Count("members_unencodable_as_State", 1)
+				}
 			}
+			var names []string
+			for _, m := range single {
+				names = append(names, m.name)
+			}
+			res.Sample(3, map[string]interface{}{"base": b.name(), "state_encoding": fmt.Sprintf("%x", single[0].encS), "mutations": names})
 		}
 		for _, x := range cat {
+			unit++
+			if (unit-1)%nshards != shard {
+				continue
+			}
 			for _, y := range cat {
 				if !x.single && !y.single {
 					continue // thorough: pairs of two double mutations (4 changes apart) are outside the bound
@@ -702,10 +712,8 @@ func runC15(t *testing.T, res *report.Result) {
 				c.pair(b, x, y)
 				res.Count("ordered_pairs", 1)
 			}
-		}
-		// signature binding over the single-mutation neighbourhood
-		for _, x := range single {
-			if !x.okS {
+			// signature binding over the single-mutation neighbourhood
+			if !x.single || !x.okS {
 				continue
 			}
 			for _, k := range sigAccs {
@@ -719,14 +727,6 @@ func runC15(t *testing.T, res *report.Result) {
 				}
 			}
 		}
-		if bi < 3 {
-			var names []string
-			for _, m := range single {
-				names = append(names, m.name)
-			}
-			res.Sample(6, map[string]interface{}{"base": b.name(), "state_encoding": fmt.Sprintf("%x", single[0].encS), "mutations": names})
-		}
-		done++
 	}
 	if len(res.Caps) == 0 {
 		res.Extra["exhaustive"] = true
